@@ -78,7 +78,8 @@ def main():
             bad = []
             nstable = 0
             for pk in pkgs:
-                rc, tout = sh('go test -json -vet=off -count=1 -timeout 20m %s' % pk, cwd=W)
+                tmo = '4m' if 'network/p2p' in pk else '20m'   # network/p2p has tests that hang on the pristine tree too (racy listener set-up)
+                rc, tout = sh('go test -json -vet=off -count=1 -timeout %s %s' % (tmo, pk), cwd=W)
                 res = {}
                 for l in tout.splitlines():
                     try:
@@ -97,8 +98,13 @@ def main():
                 for t in bad:
                     pkg, name = t.split('::')
                     rel = './' + pkg.replace('github.com/LemoFoundationLtd/lemochain-core/', '') + '/'
-                    rc, _ = sh("go test -vet=off -count=1 -run '^%s$' %s" % (name.split('/')[0], rel), cwd=W)
-                    if rc != 0:
+                    ok_once = False
+                    for _ in range(2):
+                        rc, _ = sh("go test -vet=off -count=1 -timeout 90s -run '^%s$' %s" % (name.split('/')[0], rel), cwd=W)
+                        if rc == 0:
+                            ok_once = True
+                            break
+                    if not ok_once:
                         still.append(t)
                 bad = still
             result['packages_tested'] = pkgs
